@@ -22,9 +22,12 @@ order), `pagesOf` / `indexesOf` (its page resp. index items), `Processed` (C13's
                             of some layout item; nothing else is ever written.
 * `C13_error_sticky`, `C13_error_stops` — once an error is recorded nothing further happens; the run stops at the
                             first item whose generation fails, having written exactly the items before it.
-* `C13_paths_collide` (examples) — the known collisions: `a.cmake`/`a.CMake` and `index.cmake` map to the same
-                            output path as another item; uniqueness of output paths therefore needs an explicit
-                            hypothesis and is not claimed here.
+* `C13_paths_nodup`       — the generated paths are pairwise distinct under the explicit hypothesis `NoStemClash`
+                            (no two non-excluded CMake files of a processed directory share a stem, none has the
+                            stem `index`).  Without it they need not be: `a.cmake`/`a.CMake` both map to `a.rst`
+                            and `index.cmake` maps to the directory's `index.rst` (known finding K4; examples at
+                            the end of the file).
+* `C13_layoutOf_eq`, `C13_pagesOf_eq`, `C13_indexesOf_eq` — the declarative recursion equations of the spec lists.
 -/
 namespace Cminx
 
@@ -146,6 +149,18 @@ theorem C13_no_descend_without_r {c : WalkCfg} {excl : List Str → Bool → Boo
 theorem C13_layout_without_r {c : WalkCfg} (hrec : c.recursive = false) (excl : List Str → Bool → Bool)
     (rel : List Str) (listing : List FsNode) : layoutOf c excl rel listing = dirItems c excl rel listing := by
   simp [layoutOf, hrec]
+
+/-- **Distinct output paths — under an explicit hypothesis.**  In general two items can share an output path
+    (`a.cmake`/`a.CMake` → `a.rst`; `index.cmake` → `index.rst`, see the examples at the end: known finding K4).
+    On a tree with distinct sub-directory names and with `NoStemClash` (in every processed directory the stems of
+    the non-excluded CMake files are pairwise distinct and none is `index`) all generated paths are distinct, so
+    "exactly one `.rst` per processed file" also holds at the level of files on disk. -/
+theorem C13_paths_nodup {c : WalkCfg} {excl : List Str → Bool → Bool} {rel : List Str}
+    {listing : List FsNode} (htree : treeOk listing = true) (hns : NoStemClash c excl rel listing) :
+    ((layoutOf c excl rel listing).map Item.path).Nodup ∧
+      ((indexesOf c excl rel listing).map indexPath ++ (pagesOf c excl rel listing).map pagePath).Nodup := by
+  have h := layoutOf_paths_nodup htree hns
+  exact ⟨h, (layout_paths_perm _).nodup_iff.1 h⟩
 
 /-! ## what is written -/
 
@@ -290,8 +305,6 @@ example : ∃ l', Processed exCfg exExcl [] exTree [] l' ∧ lit "A.CMake" ∈ k
   (C13_processed_files ex_guard ([], lit "A.CMake", [])).1 (by rw [ex_pages]; decide)
 
 -- content of `b.rst`
-def exB : List Str × Str × Str := ([], lit "b.cmake", lit "#[[[\n# doc\n#]]\nfunction(f)\nendfunction()\n")
-
 set_option maxRecDepth 8192 in
 example : (⟨[lit "b.rst"], lit "\n###\nP.b\n###\n\n.. module:: P.b\n\n\n.. function:: f()\n\n   doc\n   \n\n"⟩ : Write) ∈
     (walkDir exCfg exExcl (lit "P") [] exTree {}).writes := by
@@ -314,18 +327,6 @@ example : ∀ w ∈ (walkDir exCfgFlat exExcl (lit "P") [] exTree {}).writes, w.
   · simp at h
   · simpa using h.1
 
-/-- the error of a failed generation -/
-def errOf : Except Err Str → Option Err
-  | .error e => some e
-  | .ok _ => none
-
-theorem eq_error_of_errOf {x : Except Err Str} {e : Err} (h : errOf x = some e) : x = .error e := by
-  cases x <;> simp_all [errOf]
-
-/-- a directory whose second file (in sorted order) has a syntax error -/
-def exErrTree : List FsNode :=
-  [.file (lit "z.cmake") [], .file (lit "bad.cmake") (lit "set("), .file (lit "a.cmake") []]
-
 -- the run stops at `bad.cmake`: `index.rst` and `a.rst` are written, `z.rst` is not, the error is recorded
 set_option maxRecDepth 8192 in
 example : walkDir {} (fun _ _ => false) (lit "P") [] exErrTree {} =
@@ -340,6 +341,17 @@ example : walkDir {} (fun _ _ => false) (lit "P") [] exErrTree {} =
   rw [C13_error_stops (c := {}) (e := .parse) (by decide) rfl hl (by decide +kernel) (Or.inl rfl)
     (eq_error_of_errOf (by decide +kernel))]
   apply RunResult.ext' <;> decide +kernel
+
+-- distinct paths: the example tree has no stem collision
+example : ((layoutOf exCfg exExcl [] exTree).map Item.path).Nodup :=
+  (C13_paths_nodup ex_treeOk ex_noStemClash).1
+
+-- the guard is needed: with auto-exclusion on and `-r`, a top directory without `.cmake` file is walked through
+-- but not processed — its sub-directory gets an index, it does not (so `C13_processed_dirs` fails for `[]`)
+example : indexesOf exCfg (fun _ _ => false) [] [.file (lit "readme.txt") [], .dir (lit "s") [.file (lit "x.cmake") []]] =
+    [([lit "s"], [], [lit "x.cmake"])] := by
+  simp only [indexesOf, layoutOf, dirItems, subsLayout, nodeLayout, sortStrs_eq_isort]
+  decide
 
 /-! ### the known output-path collisions (finding K4): why uniqueness of the written paths is not claimed
 
